@@ -46,7 +46,7 @@ SPEC = {
                  "C20_reregistration_branch_dead", "C20_cancel_only_by_shutdown",
                  "C20_ext_refines", "C20_ext_statement", "C20_stopped_ctx_after_flag", "C20_stopped_ctx_before_cancel",
                  "C20_stopped_ctx_before_return", "C20_stopped_monotone", "C20_stopped_observations",
-                 "C20_wrappers_forward_all_arguments", "C20_driver_step_sound"],
+                 "C20_wrappers_forward_all_arguments", "C20_driver_step_sound", "C20_shutdown_terminates"],
     "trusted_base": [
         "hand-written protocol model Hive/Model/Daemon.lean of app/daemon/daemon.go (critical sections of d.lock atomic; "
         "lock-free reads as separate steps), tied by (a) differential execution of sequential histories against the model "
